@@ -11,10 +11,10 @@ import (
 )
 
 // Helpers for the html / html/atom rule sets (C39..C42). All names carry the
-// Hx prefix so that they cannot collide with other rule authors' helpers.
+// Htm prefix so that they cannot collide with other rule authors' helpers.
 
-// HxStrip removes value-preserving conversions (Convert, ChangeType) from v.
-func HxStrip(v ssa.Value) ssa.Value {
+// HtmStrip removes value-preserving conversions (Convert, ChangeType) from v.
+func HtmStrip(v ssa.Value) ssa.Value {
 	for {
 		switch x := v.(type) {
 		case *ssa.Convert:
@@ -27,10 +27,10 @@ func HxStrip(v ssa.Value) ssa.Value {
 	}
 }
 
-// HxConstInt returns the integer value of v if it is an integer constant
+// HtmConstInt returns the integer value of v if it is an integer constant
 // (through conversions).
-func HxConstInt(v ssa.Value) (int64, bool) {
-	c, ok := HxStrip(v).(*ssa.Const)
+func HtmConstInt(v ssa.Value) (int64, bool) {
+	c, ok := HtmStrip(v).(*ssa.Const)
 	if !ok || c.Value == nil || c.Value.Kind() != constant.Int {
 		return 0, false
 	}
@@ -43,49 +43,49 @@ func HxConstInt(v ssa.Value) (int64, bool) {
 	return 0, false
 }
 
-// HxConstStr returns the string value of v if it is a string constant.
-func HxConstStr(v ssa.Value) (string, bool) {
-	c, ok := HxStrip(v).(*ssa.Const)
+// HtmConstStr returns the string value of v if it is a string constant.
+func HtmConstStr(v ssa.Value) (string, bool) {
+	c, ok := HtmStrip(v).(*ssa.Const)
 	if !ok || c.Value == nil || c.Value.Kind() != constant.String {
 		return "", false
 	}
 	return constant.StringVal(c.Value), true
 }
 
-// HxBin matches v (through conversions) as a binary operation op with a
+// HtmBin matches v (through conversions) as a binary operation op with a
 // constant operand on the right (or on either side for commutative ops) and
 // returns the other operand and the constant.
-func HxBin(v ssa.Value, op token.Token) (ssa.Value, int64, bool) {
-	b, ok := HxStrip(v).(*ssa.BinOp)
+func HtmBin(v ssa.Value, op token.Token) (ssa.Value, int64, bool) {
+	b, ok := HtmStrip(v).(*ssa.BinOp)
 	if !ok || b.Op != op {
 		return nil, 0, false
 	}
-	if k, ok := HxConstInt(b.Y); ok {
+	if k, ok := HtmConstInt(b.Y); ok {
 		return b.X, k, true
 	}
 	switch op {
 	case token.ADD, token.MUL, token.AND, token.OR, token.XOR:
-		if k, ok := HxConstInt(b.X); ok {
+		if k, ok := HtmConstInt(b.X); ok {
 			return b.Y, k, true
 		}
 	}
 	return nil, 0, false
 }
 
-// HxEach calls f for every instruction of fn (closures excluded).
-func HxEach(fn *ssa.Function, f func(ssa.Instruction)) { eachInstr(fn, f) }
+// HtmEach calls f for every instruction of fn (closures excluded).
+func HtmEach(fn *ssa.Function, f func(ssa.Instruction)) { eachInstr(fn, f) }
 
-// HxEachDeep calls f for every instruction of fn and of its nested closures.
-func HxEachDeep(fn *ssa.Function, f func(*ssa.Function, ssa.Instruction)) {
+// HtmEachDeep calls f for every instruction of fn and of its nested closures.
+func HtmEachDeep(fn *ssa.Function, f func(*ssa.Function, ssa.Instruction)) {
 	for _, g := range Closures(fn) {
 		g := g
 		eachInstr(g, func(in ssa.Instruction) { f(g, in) })
 	}
 }
 
-// HxBlockReaches reports whether some instruction of targets is reachable
+// HtmBlockReaches reports whether some instruction of targets is reachable
 // starting at the first instruction of block b.
-func HxBlockReaches(b *ssa.BasicBlock, targets []ssa.Instruction) bool {
+func HtmBlockReaches(b *ssa.BasicBlock, targets []ssa.Instruction) bool {
 	if len(b.Instrs) == 0 {
 		return false
 	}
@@ -93,16 +93,16 @@ func HxBlockReaches(b *ssa.BasicBlock, targets []ssa.Instruction) bool {
 	return ok
 }
 
-// HxReachesAfter reports whether a target is reachable strictly after in.
-func HxReachesAfter(in ssa.Instruction, targets []ssa.Instruction) bool {
+// HtmReachesAfter reports whether a target is reachable strictly after in.
+func HtmReachesAfter(in ssa.Instruction, targets []ssa.Instruction) bool {
 	_, ok := canReach(posOf(in), false, instrSet(targets), nil)
 	return ok
 }
 
-// HxFieldPath returns the chain of field names addressed by addr, outermost
+// HtmFieldPath returns the chain of field names addressed by addr, outermost
 // first (e.g. ["raw","start"] for &z.raw.start), and the root value the chain
 // starts from. Array/slice indexing steps are rendered as "[]".
-func HxFieldPath(addr ssa.Value) ([]string, ssa.Value) {
+func HtmFieldPath(addr ssa.Value) ([]string, ssa.Value) {
 	var path []string
 	v := addr
 	for {
@@ -128,23 +128,23 @@ func HxFieldPath(addr ssa.Value) ([]string, ssa.Value) {
 	}
 }
 
-// HxStore is a store whose address is a field path below a value of the named struct type.
-type HxStore struct {
+// HtmStore is a store whose address is a field path below a value of the named struct type.
+type HtmStore struct {
 	Fn    *ssa.Function // innermost function containing the store
 	Outer string        // name of the outermost enclosing source function
 	Path  string        // "raw.start"
 	St    *ssa.Store
 }
 
-// HxStoresUnder lists every store in the program whose address is a field
+// HtmStoresUnder lists every store in the program whose address is a field
 // path rooted at a value of type *T (T = "pkg.Type"); path elements are joined
 // with ".".
-func (p *Prog) HxStoresUnder(typeQ string) []HxStore {
+func (p *Prog) HtmStoresUnder(typeQ string) []HtmStore {
 	obj := p.Object(typeQ)
 	if obj == nil {
 		return nil
 	}
-	var out []HxStore
+	var out []HtmStore
 	for _, fn := range p.All {
 		fn := fn
 		eachInstr(fn, func(in ssa.Instruction) {
@@ -152,7 +152,7 @@ func (p *Prog) HxStoresUnder(typeQ string) []HxStore {
 			if !ok {
 				return
 			}
-			path, root := HxFieldPath(st.Addr)
+			path, root := HtmFieldPath(st.Addr)
 			if len(path) == 0 {
 				return
 			}
@@ -163,17 +163,17 @@ func (p *Prog) HxStoresUnder(typeQ string) []HxStore {
 			if !types.Identical(t, obj.Type()) {
 				return
 			}
-			out = append(out, HxStore{fn, FnName(Outer(fn)), strings.Join(path, "."), st})
+			out = append(out, HtmStore{fn, FnName(Outer(fn)), strings.Join(path, "."), st})
 		})
 	}
 	return out
 }
 
-// HxSubAddrEscapes lists instructions that take the address of the named
+// HtmSubAddrEscapes lists instructions that take the address of the named
 // field ("pkg.T.f") and use it other than for projecting to a sub-field,
 // loading from it or storing to it (i.e. the address may be kept or passed on),
 // plus whole-value stores to the field.
-func (p *Prog) HxSubAddrEscapes(field string) []ssa.Instruction {
+func (p *Prog) HtmSubAddrEscapes(field string) []ssa.Instruction {
 	fv := p.Field(field)
 	if fv == nil {
 		return nil
@@ -210,9 +210,9 @@ func (p *Prog) HxSubAddrEscapes(field string) []ssa.Instruction {
 	return out
 }
 
-// HxCase is one clause of an expression switch: the constant case values and
+// HtmCase is one clause of an expression switch: the constant case values and
 // the string constants assigned (or returned) in its body.
-type HxCase struct {
+type HtmCase struct {
 	Vals    []constant.Value
 	Strs    []string // string literals assigned/returned/passed in the clause body
 	Default bool
@@ -221,24 +221,24 @@ type HxCase struct {
 	Clause  *ast.CaseClause
 }
 
-// HxSwitches returns, for every expression switch with a tag in the syntax of
+// HtmSwitches returns, for every expression switch with a tag in the syntax of
 // fnName for which tagOK(tag) holds, its clauses.
-func (p *Prog) HxSwitches(fnName string, tagOK func(tag ast.Expr, info *types.Info) bool) [][]HxCase {
+func (p *Prog) HtmSwitches(fnName string, tagOK func(tag ast.Expr, info *types.Info) bool) [][]HtmCase {
 	fn := p.Fn(fnName)
 	if fn == nil || fn.Syntax() == nil {
 		return nil
 	}
 	pk := p.PkgOfFn(fn)
-	var out [][]HxCase
+	var out [][]HtmCase
 	ast.Inspect(fn.Syntax(), func(n ast.Node) bool {
 		sw, ok := n.(*ast.SwitchStmt)
 		if !ok || sw.Tag == nil || !tagOK(sw.Tag, pk.TypesInfo) {
 			return true
 		}
-		var cases []HxCase
+		var cases []HtmCase
 		for _, cl := range sw.Body.List {
 			cc := cl.(*ast.CaseClause)
-			hc := HxCase{Default: cc.List == nil, Pos: cc.Pos(), Clause: cc}
+			hc := HtmCase{Default: cc.List == nil, Pos: cc.Pos(), Clause: cc}
 			for _, e := range cc.List {
 				if tv, ok := pk.TypesInfo.Types[e]; ok && tv.Value != nil {
 					hc.Vals = append(hc.Vals, tv.Value)
@@ -274,8 +274,8 @@ func (p *Prog) HxSwitches(fnName string, tagOK func(tag ast.Expr, info *types.In
 	return out
 }
 
-// HxIsIndexOf reports whether tag is an index expression x[i] whose base has a string or byte-slice type.
-func HxIsIndexOf(tag ast.Expr, info *types.Info) bool {
+// HtmIsIndexOf reports whether tag is an index expression x[i] whose base has a string or byte-slice type.
+func HtmIsIndexOf(tag ast.Expr, info *types.Info) bool {
 	ix, ok := tag.(*ast.IndexExpr)
 	if !ok {
 		return false
@@ -294,8 +294,8 @@ func HxIsIndexOf(tag ast.Expr, info *types.Info) bool {
 	return false
 }
 
-// HxMapLit reads a package-level map[string]T composite literal into key -> value expression.
-func (p *Prog) HxMapLit(q string) (map[string]ast.Expr, bool) {
+// HtmMapLit reads a package-level map[string]T composite literal into key -> value expression.
+func (p *Prog) HtmMapLit(q string) (map[string]ast.Expr, bool) {
 	e, pk := p.VarDecl(q)
 	if e == nil {
 		return nil, false
@@ -315,17 +315,17 @@ func (p *Prog) HxMapLit(q string) (map[string]ast.Expr, bool) {
 	return out, true
 }
 
-// HxDeferredRecover describes a `defer func(){ ... recover() ... }()` in fn.
-type HxDeferredRecover struct {
+// HtmDeferredRecover describes a `defer func(){ ... recover() ... }()` in fn.
+type HtmDeferredRecover struct {
 	Defer   *ssa.Defer
 	Closure *ssa.Function
 	// Guarded: the closure stores to a captured variable only under `recover() != nil`.
 	StoresNamedResult bool
 }
 
-// HxDeferredRecovers lists the defers of fn whose closure calls recover() directly.
-func HxDeferredRecovers(fn *ssa.Function) []HxDeferredRecover {
-	var out []HxDeferredRecover
+// HtmDeferredRecovers lists the defers of fn whose closure calls recover() directly.
+func HtmDeferredRecovers(fn *ssa.Function) []HtmDeferredRecover {
+	var out []HtmDeferredRecover
 	eachInstr(fn, func(in ssa.Instruction) {
 		d, ok := in.(*ssa.Defer)
 		if !ok {
@@ -356,16 +356,16 @@ func HxDeferredRecovers(fn *ssa.Function) []HxDeferredRecover {
 			}
 		})
 		if rec {
-			out = append(out, HxDeferredRecover{d, cl, stores})
+			out = append(out, HtmDeferredRecover{d, cl, stores})
 		}
 	})
 	return out
 }
 
-// HxCallees returns the repo functions that fn (including its closures) may
+// HtmCallees returns the repo functions that fn (including its closures) may
 // call or reference directly: static callees, closures made, function values
 // mentioned. Interface dispatch is resolved as in Reachable for repo interfaces.
-func (p *Prog) HxCallees(fn *ssa.Function) map[*ssa.Function][]ssa.Instruction {
+func (p *Prog) HtmCallees(fn *ssa.Function) map[*ssa.Function][]ssa.Instruction {
 	out := map[*ssa.Function][]ssa.Instruction{}
 	add := func(f *ssa.Function, in ssa.Instruction) {
 		if f == nil {
